@@ -105,7 +105,7 @@ VARIANTS = [
     M("C18", "block-starts-shifted", I, "blockStarts = [i.start - 1 - chromStart for i in exons]", "blockStarts = [i.start - chromStart for i in exons]", "R1"),
     M("C18", "sequence-slice-one-based", F, "seq = fasta[self.chrom][self.start - 1 : self.stop]", "seq = fasta[self.chrom][self.start : self.stop]", "R1"),
     M("C18", "len-off-by-one", F, "        return self.stop - self.start + 1", "        return self.stop - self.start", "R1"),
-    M("C18", "thick-fields-swapped", I, "            thickStart,\n            thickEnd,\n            itemRgb,", "            thickEnd,\n            thickStart,\n            itemRgb,", "R2"),
+    M("C18", "thick-fields-swapped", I, "            thickStart,\n            thickEnd,\n            itemRgb,", "            thickEnd,\n            thickStart,\n            itemRgb,"),
     M("C18", "span-check-weakened", I, "        if first != feature.start:", "        if first < feature.start:", "R3"),
     M("C18", "revcomp-plus", F, '        if use_strand and self.strand == "-":', '        if use_strand and self.strand == "+":', "R5"),
     M("C18", "id-used-before-lookup", I, "        feature = self[feature]\n        exons = list(\n            self.children(feature, featuretype=block_featuretype, order_by=\"start\")\n        )\n        if len(exons) == 0:\n            exons = [feature]\n",
